@@ -100,6 +100,7 @@ func genVC(P *Program, C *Contracts, S *Sorts, key string, pure map[*ssa.Functio
 	ex.entry = entry
 	bind := map[string]string{}
 	for _, p := range fn.Params {
+		S.registerReachable(p.Type(), 0, map[types.Type]bool{})
 		v := f.havocVal(p.Type(), "p."+p.Name())
 		v.NF = true
 		f.regs[p] = v
